@@ -110,6 +110,6 @@ def run_harness(ctx, pkg, run, inputs=None, env=None, timeout=900, **kw):
     res["_out"] = out
     res["_log"] = txt[-6000:]
     if rc != 0 and not res.get("mismatches"):
-        raise MachineryError("harness %s %s failed without reporting a mismatch (rc=%d):\n%s"
-                             % (pkg, run, rc, txt[-4000:]))
+        raise HarnessCrash("harness %s %s failed without reporting a mismatch (rc=%d):\n%s"
+                           % (pkg, run, rc, txt[-4000:]), txt)
     return res
